@@ -77,7 +77,7 @@ def run(prop, tier, seed):
     rep = vlib.Report(prop)
     exes, qexe = build_fault_drivers()
     d = check_seq.trace_dir(prop)
-    runs, histories, ops = (2, 10, 50) if tier == "quick" else (30, 10, 150)
+    runs, histories, ops = (2, 10, 50) if tier == "quick" else (30, 11, 150)
     jobs = []
     for (db, key), exe in exes.items():
         for r in range(runs):
